@@ -197,7 +197,7 @@ theorem rinv_step (cfg : Cfg) (l l' : Lane) (a : LAct) (_hi : LInv l) (h : RInv 
           have : finIds l.log = startIds l.log := by simpa [FinOk, hcons, consRunning] using hf
           rw [this]
   | finish id r =>
-    obtain ⟨hcons, hres, e⟩ := finish_effect cfg l l' id r hs
+    obtain ⟨hcons, hres, e⟩ := finish_effect cfg l l' id r _hi.cons2_none hs
     subst e
     have hmono : ∀ i, Cancelled l.calls i → Cancelled (updCall l.calls id (fun c => { c with cell := some r })) i :=
       fun i h => cancelled_updCall (fun _ => ⟨rfl, fun h => h⟩) h
@@ -258,12 +258,22 @@ theorem rinv_step (cfg : Cfg) (l l' : Lane) (a : LAct) (_hi : LInv l) (h : RInv 
     refine ⟨?_, ?_, hf⟩
     · exact cellOk_mono hc (fun _ h => h) (fun rec hm => Or.inr ⟨rec, hm, rfl, rfl⟩) (fun _ h => h)
     · exact retOk_mono hr (fun _ h => h) (fun _ _ h => Or.inl h) (fun _ h => h) (fun _ => rfl)
+  | run =>
+    rcases run_effect cfg l l' hs with e | e | ⟨e, _, _⟩ <;> subst e
+    · exact ⟨hc, hr, hf⟩
+    · exact ⟨hc, hr, hf⟩
+    · exact ⟨hc, hr, hf⟩
+  | pop2 => rw [pop2_disabled cfg l _hi.cons2_none] at hs; cases hs
 
-theorem rinv_reach (cfg : Cfg) (k : Kind) (cap idx : Nat) (l : Lane) (hr : (laneLTS cfg k cap idx).Reach l) :
-    LInv l ∧ RInv l := by
-  induction hr with
-  | init => exact ⟨linv_init k cap idx, rinv_init k cap idx⟩
-  | step _ hstep ih => exact ⟨linv_step cfg _ _ _ ih.1 hstep, rinv_step cfg _ _ _ ih.1 ih.2 hstep⟩
+theorem rinv_reach (cfg : Cfg) (k : Kind) (cap idx : Nat) (hg : RunGuarded cfg k) (l : Lane)
+    (hr : (laneLTS cfg k cap idx).Reach l) : LInv l ∧ RInv l := by
+  have : (LInv l ∧ RInv l) ∧ l.kind = k := by
+    induction hr with
+    | init => exact ⟨⟨linv_init k cap idx, rinv_init k cap idx⟩, rfl⟩
+    | step _ hstep ih =>
+      exact ⟨⟨linv_step cfg _ _ _ (by rw [ih.2]; exact hg) ih.1.1 hstep, rinv_step cfg _ _ _ ih.1.1 ih.1.2 hstep⟩,
+        (step_static cfg _ _ _ hstep).1.trans ih.2⟩
+  exact this.1
 
 theorem mem_finIds : ∀ (es : List Ev) (i : Nat) (x : Res), Ev.fin i x ∈ es → i ∈ finIds es
   | [], _, _, h => by cases h
